@@ -132,11 +132,11 @@ Frame(inc, site, req) ==
     /\ running /\ frames < MaxFrames
     /\ site \in Sites /\ req[1] \in Reqs
     /\ (req[1] \in {"switch", "raise", "switchq", "direct"} => nextInst + 1 <= MaxInst)
-    /\ (req[1] = "poke" => inst[req[2]] # 0 /\ inst[req[2]] # curInst /\ Len(q[inst[req[2]]]) < 3)
+    /\ (req[1] \in {"poke", "respawn"} => inst[req[2]] # 0 /\ inst[req[2]] # curInst /\ Len(q[inst[req[2]]]) < 3)
     /\ (req[1] \in {"nop"} => site = "p2")           \* a frame without request runs every site
     /\ frames' = frames + 1
     /\ (site = "co" => curInst \notin coUsed)
-    /\ coUsed' = IF site = "co" /\ req[1] \notin {"nop", "poke", "direct"} THEN coUsed \cup {curInst} ELSE coUsed
+    /\ coUsed' = IF site = "co" /\ req[1] \notin {"nop", "poke", "direct", "respawn"} THEN coUsed \cup {curInst} ELSE coUsed
     /\ LET reading == now + inc
            dt == IF last = NoTS THEN 0 ELSE reading - last
            w == curInst
@@ -148,6 +148,17 @@ Frame(inc, site, req) ==
                     /\ UNCHANGED <<cur, curInst, running>>
                [] req[1] = "poke" ->         \* an event dispatched into another, cached world instance
                     /\ Commit(RunSites(Dispatch(s1, inst[req[2]], "poke", 0, 0), w, k + 1, 4, dt))
+                    /\ last' = reading /\ ret' = "ok" /\ UNCHANGED <<cur, curInst, running>>
+               [] req[1] = "respawn" ->
+                    \* the running code replaces the only listener of another, cached world: it deletes that world's
+                    \* observer, dispatches an event into that world while nobody listens there, then creates a new
+                    \* observer.  A muted world holds the event (its name stays known to the dispatcher) and the new
+                    \* observer - registered by the time the world is entered - receives it, after nothing else.
+                    LET i == inst[req[2]]
+                        s2 == IF s1.en[i]
+                              THEN [s1 EXCEPT !.log = Append(@, <<"ev", i, "on_add", 0, 0>>)]
+                              ELSE [s1 EXCEPT !.q[i] = @ \o <<<<"poke", 0, 0>>, <<"on_add", 0, 0>>>>] IN
+                    /\ Commit(RunSites(s2, w, k + 1, 4, dt))
                     /\ last' = reading /\ ret' = "ok" /\ UNCHANGED <<cur, curInst, running>>
                [] req[1] = "switch" ->
                     LET f == SwitchFn(s1, w, req[2], req[3], req[4])
@@ -198,7 +209,7 @@ Frame(inc, site, req) ==
 ReqSet == {<<"nop", "-", FALSE, FALSE>>, <<"quit", "-", FALSE, FALSE>>, <<"quit_loop", "-", FALSE, FALSE>>,
            <<"clrquit", "-", FALSE, FALSE>>, <<"qlerr", "-", FALSE, FALSE>>,
            <<"error", "-", FALSE, FALSE>>}
-          \cup {<<k, h, FALSE, FALSE>> : k \in {"poke", "switchq", "direct"}, h \in Hs}
+          \cup {<<k, h, FALSE, FALSE>> : k \in {"poke", "switchq", "direct", "respawn"}, h \in Hs}
           \cup {<<k, h, cc, cn>> : k \in {"switch", "raise"}, h \in Hs, cc \in BOOLEAN, cn \in BOOLEAN}
 
 Next == \/ (\E h \in Hs : InitialSwitch(h))
